@@ -80,7 +80,7 @@ func ConfTag(c *sdl.Conf) string {
 		key, val = "value", "#{${"+c.Keys[0]+":"+c.Default+"}+${"+c.Keys[1]+":"+c.Default2+"}}"
 	case "typePrefixDyn":
 		return "" // no tag: the field's value names its prefix
-	case "prefixInt", "prefixStr", "prefixStruct", "prefixStructV":
+	case "prefixInt", "prefixStr", "prefixStruct", "prefixStructV", "prefixNest":
 		key, val = "prefix", c.Keys[0]
 	case "nested":
 		key, val = "value", "#{${sim.${other.sel}}+${"+c.Keys[0]+"}}"
@@ -358,6 +358,9 @@ func emitType(b *strings.Builder, p *sdl.Program, t *sdl.Type) {
 		gt := cf.GoType
 		if gt == "struct" {
 			gt = "simrt.CfgAB"
+		}
+		if gt == "nest" {
+			gt = "simrt.CfgNest"
 		}
 		if gt == "structV" {
 			gt = "simrt.CfgABV"
